@@ -133,7 +133,7 @@ Qed.
 Lemma step_inv tr s e s' : Inv tr s -> step s e = Some s' -> Inv (tr ++ [e]) s'.
 Proof.
   intros HI HS. pose proof HI as (HT & HK & HN1 & HN2 & HL).
-  destruct e as [p|p|p n|p|p j|p j|p|p n|p|p|p|p|j|j]; simpl in HS.
+  destruct e as [p|p|p n|p|p j|p j|p|p n|p|p|p c|p|j|j]; simpl in HS.
   - (* Lock *)
     destruct (lock s) eqn:L; [discriminate|]. destruct (ph s p) eqn:P; try discriminate. inv_some HS.
     unfold Inv; simpl. rewrite kept_snoc, ghost_snoc, subs_snoc; simpl. rewrite Nat.eqb_refl.
@@ -370,7 +370,7 @@ Theorem only_ok_exit_forgets : forall s e s', step s e = Some s' ->
   incl (names (jobs s) ++ names (bakl s)) (names (jobs s') ++ names (bakl s')).
 Proof.
   intros s e s' HS HE.
-  destruct e as [p|p|p n|p|p j|p j|p|p n|p|p|p|p|j|j]; simpl in HS.
+  destruct e as [p|p|p n|p|p j|p j|p|p n|p|p|p c|p|j|j]; simpl in HS.
   - destruct (lock s); [discriminate|]. destruct (ph s p); try discriminate. inv_some HS. apply incl_refl.
   - destruct (ph s p); try discriminate. inv_some HS. unfold bakl at 2. simpl. apply incl_refl.
   - destruct (ph s p); try discriminate. destruct (bak s) as [b|] eqn:B; try discriminate.
@@ -433,7 +433,7 @@ Proof.
   intros tr s e s' H HS HC. apply run_inv in H.
   assert (HA : forall p, actor e = Some p -> is_out (ph s p) = false -> exists p, actor e = Some p /\ lock s = Some p).
   { intros p A O. exists p. split; [exact A|]. apply (holder_is _ _ _ H O). }
-  destruct e as [p|p|p n|p|p j|p j|p|p n|p|p|p|p|j|j]; simpl in HS.
+  destruct e as [p|p|p n|p|p j|p j|p|p n|p|p|p c|p|j|j]; simpl in HS.
   - destruct (lock s); [discriminate|]. destruct (ph s p); try discriminate. injection HS as <-. simpl in HC. tauto.
   - destruct (ph s p) eqn:P; try discriminate. apply (HA p); auto. rewrite P; reflexivity.
   - destruct (ph s p) eqn:P; try discriminate. apply (HA p); auto. rewrite P; reflexivity.
@@ -455,8 +455,8 @@ Qed.
    after two aborted runs in a row.  This is NOT the code; it shows backup_keeps is not vacuous. *)
 Definition tr_two_aborts : list event :=
   [ MkJobDir 1; Lock 0%nat; MkBak 0%nat; Ready 0%nat; Submit 0%nat 1; Link 0%nat 1; EndOk 0%nat; RmBakDir 0%nat; Done 0%nat;
-    Lock 1%nat; MkBak 1%nat; Move 1%nat 1; Ready 1%nat; EndExc 1%nat;
-    Lock 2%nat; MkBak 2%nat; Ready 2%nat; EndExc 2%nat ].
+    Lock 1%nat; MkBak 1%nat; Move 1%nat 1; Ready 1%nat; EndExc 1%nat ExcError;
+    Lock 2%nat; MkBak 2%nat; Ready 2%nat; EndExc 2%nat ExcExit ].
 
 Theorem replace_variant_refuted : exists tr s,
   run_replace init tr = Some s /\ ~ incl (kept tr) (names (jobs s) ++ names (bakl s)) /\ In 1 (orphans s).
@@ -473,7 +473,7 @@ Definition tr_example : list event :=
   [ MkJobDir 1; MkJobDir 2; MkJobDir 3; MkJobDir 4;
     Lock 0%nat; MkBak 0%nat; Ready 0%nat; Submit 0%nat 1; Submit 0%nat 2; Link 0%nat 2; EndOk 0%nat; RmBakDir 0%nat; Link 0%nat 1; Done 0%nat;
     Lock 1%nat; MkBak 1%nat; Move 1%nat 2; Move 1%nat 1; Ready 1%nat; Submit 1%nat 3; Link 1%nat 3; Kill 1%nat;
-    Lock 2%nat; MkBak 2%nat; Move 2%nat 3; Ready 2%nat; Submit 2%nat 2; Link 2%nat 2; EndExc 2%nat ].
+    Lock 2%nat; MkBak 2%nat; Move 2%nat 3; Ready 2%nat; Submit 2%nat 2; Link 2%nat 2; EndExc 2%nat ExcExit ].
 
 Example ex_run : exists s, run init tr_example = Some s /\ kept tr_example = [2; 3; 1; 2] /\
   names (jobs s) = [2] /\ names (bakl s) = [3; 1; 2] /\ orphans s = [4].
@@ -494,6 +494,123 @@ Proof. eexists. eexists. split; [vm_compute; reflexivity|]. split; [vm_compute; 
 Example ex_forget : exists s s', run init (firstn 18 tr_example) = Some s /\
   step s (Kill 1%nat) = Some s' /\ names (jobs s) ++ names (bakl s) = [1; 2].
 Proof. eexists. eexists. split; [vm_compute; reflexivity|]. split; vm_compute; reflexivity. Qed.
+
+(* (7) leaving the block through an exception: the class of the exception does not matter, and in
+   every reachable state the step changes neither jobs/ nor jobs.bak/, the backup directory exists
+   (it was made by __enter__), the lock is released.  "If the block raises, the previous index is
+   kept as backup" - whether it raises an Exception or sys.exit()/KeyboardInterrupt/...          *)
+Theorem abort_class_irrelevant : forall s p c c', step s (EndExc p c) = step s (EndExc p c').
+Proof. reflexivity. Qed.
+
+(* while a process is moving links or inside the block, jobs.bak exists *)
+Definition BInv (s : st) : Prop :=
+  forall p, match ph s p with Moving | Inside _ _ => bak s <> None | _ => True end.
+
+Lemma binv_init : BInv init.
+Proof. intros p. exact I. Qed.
+
+Lemma binv_upd_other s (b : option (list link)) p v :
+  (forall q, match ph s q with Moving | Inside _ _ => b <> None | _ => True end) ->
+  match v with Moving | Inside _ _ => b <> None | _ => True end ->
+  forall q, match upd (ph s) p v q with Moving | Inside _ _ => b <> None | _ => True end.
+Proof.
+  intros H Hv q. destruct (Nat.eq_dec q p) as [->|N]; [rewrite upd_eq; exact Hv | rewrite upd_neq by exact N; apply H].
+Qed.
+
+Lemma step_binv tr s e s' : Inv tr s -> BInv s -> step s e = Some s' -> BInv s'.
+Proof.
+  intros HI HB HS.
+  destruct e as [p|p|p n|p|p j|p j|p|p n|p|p|p c|p|j|j]; simpl in HS.
+  - destruct (lock s); [discriminate|]. destruct (ph s p); try discriminate. inv_some HS.
+    unfold BInv; simpl. apply binv_upd_other; [exact HB | exact I].
+  - destruct (ph s p); try discriminate. inv_some HS. unfold BInv; simpl.
+    apply binv_upd_other; [|discriminate]. intros q. destruct (ph s q); auto; discriminate.
+  - destruct (ph s p); try discriminate. destruct (bak s) as [b|] eqn:B; try discriminate.
+    destruct (find_link n (jobs s)); try discriminate.
+    destruct (has n b); inv_some HS; unfold BInv; simpl; intros q; destruct (ph s q); auto; discriminate.
+  - destruct (ph s p) eqn:P; try discriminate. destruct (isnil (jobs s)); try discriminate. inv_some HS.
+    unfold BInv; simpl. apply binv_upd_other; [exact HB|]. specialize (HB p). rewrite P in HB. exact HB.
+  - destruct (ph s p) eqn:P; try discriminate. inv_some HS.
+    unfold BInv; simpl. apply binv_upd_other; [exact HB|]. specialize (HB p). rewrite P in HB. exact HB.
+  - pose proof (HB p) as HBp.
+    destruct (ph s p) eqn:P; try discriminate; destruct (memz j sub); try discriminate; inv_some HS;
+      unfold BInv; simpl; apply binv_upd_other; try exact HB; try exact I. exact HBp.
+  - destruct (ph s p); try discriminate. inv_some HS.
+    unfold BInv; simpl. apply binv_upd_other; [exact HB | exact I].
+  - destruct (ph s p); try discriminate. destruct (bak s) as [b|] eqn:B; try discriminate.
+    destruct (has n b); try discriminate. inv_some HS.
+    unfold BInv; simpl. intros q. destruct (ph s q); auto; discriminate.
+  - (* RmBakDir: the only step that makes jobs.bak disappear; every other process is outside *)
+    destruct (ph s p) eqn:P; try discriminate.
+    assert (HO : is_out (ph s p) = false) by (rewrite P; reflexivity).
+    destruct (holder_is _ _ _ HI HO) as (L & HQ & _).
+    assert (s' = mk (jobs s) None (lock s) (upd (ph s) p (ExitWait sub linked)) (dirs s)) as ->.
+    { destruct (bak s) as [[|x b]|]; try discriminate; inv_some HS; reflexivity. }
+    unfold BInv; simpl. intros q. destruct (Nat.eq_dec q p) as [->|N].
+    + rewrite upd_eq. exact I.
+    + rewrite upd_neq by exact N. rewrite (HQ q N). exact I.
+  - destruct (ph s p); try discriminate. destruct (forallb (fun j : Z => memz j linked) sub); try discriminate.
+    inv_some HS. unfold BInv; simpl. apply binv_upd_other; [exact HB | exact I].
+  - destruct (ph s p); try discriminate. inv_some HS.
+    unfold BInv; simpl. apply binv_upd_other; [exact HB | exact I].
+  - destruct (is_out (ph s p)); try discriminate. inv_some HS.
+    unfold BInv; simpl. apply binv_upd_other; [exact HB | exact I].
+  - inv_some HS. exact HB.
+  - inv_some HS. exact HB.
+Qed.
+
+Lemma run_binv tr : forall s, run init tr = Some s -> BInv s.
+Proof.
+  induction tr as [|e tr IH] using rev_ind; intros s H.
+  - unfold run in H; simpl in H. inv_some H. apply binv_init.
+  - rewrite run_snoc in H. destruct (run init tr) as [s0|] eqn:R; simpl in H; [|discriminate].
+    eapply step_binv; [apply run_inv; exact R | apply IH; reflexivity | exact H].
+Qed.
+
+Theorem raise_keeps_index : forall tr s p c s', run init tr = Some s -> step s (EndExc p c) = Some s' ->
+  jobs s' = jobs s /\ bak s' = bak s /\ (exists b, bak s' = Some b) /\ lock s' = None /\ ph s' p = Out /\
+  incl (kept (tr ++ [EndExc p c])) (names (jobs s') ++ names (bakl s')).
+Proof.
+  intros tr s p c s' H HS.
+  assert (H' : run init (tr ++ [EndExc p c]) = Some s') by (rewrite run_snoc, H; exact HS).
+  pose proof (run_inv _ _ H) as HI. pose proof (run_binv _ _ H p) as HB.
+  pose proof (backup_keeps _ _ H') as HK. clear H'. revert HK.
+  simpl in HS. destruct (ph s p) eqn:P; try discriminate. inv_some HS. simpl. intros HK.
+  assert (HO : is_out (ph s p) = false) by (rewrite P; reflexivity).
+  destruct (holder_is _ _ _ HI HO) as (L & _).
+  repeat split.
+  - destruct (bak s) as [b|]; [exists b; reflexivity | contradiction].
+  - rewrite L. apply release_self.
+  - apply upd_eq.
+  - exact HK.
+Qed.
+
+(* the theorem depends on the guard of __exit__ being "no exception at all": with a guard that only
+   counts instances of Exception as a failure (NOT the code), a run left through sys.exit() or
+   KeyboardInterrupt before it re-submitted job 1 drops the index of the last completed plan     *)
+Definition tr_sysexit : list event :=
+  [ MkJobDir 1; MkJobDir 2;
+    Lock 0%nat; MkBak 0%nat; Ready 0%nat; Submit 0%nat 1; Link 0%nat 1; EndOk 0%nat; RmBakDir 0%nat; Done 0%nat;
+    Lock 1%nat; MkBak 1%nat; Move 1%nat 1; Ready 1%nat; Submit 1%nat 2; Link 1%nat 2; EndExc 1%nat ExcExit ].
+
+Theorem exception_only_variant_refuted : exists tr s,
+  run_exconly init tr = Some s /\ ~ incl (kept tr) (names (jobs s) ++ names (bakl s)) /\ In 1 (orphans s).
+Proof.
+  exists tr_sysexit. eexists. split; [vm_compute; reflexivity|]. split.
+  - intros H. assert (X : In 1 (kept tr_sysexit)) by (vm_compute; right; left; reflexivity).
+    apply H in X. vm_compute in X. destruct X as [X|[]]. discriminate X.
+  - vm_compute. left. reflexivity.
+Qed.
+
+(* the same history on the code's step function: the backup is there and nothing is an orphan *)
+Example ex_sysexit : exists s, run init tr_sysexit = Some s /\ kept tr_sysexit = [2; 1] /\
+  names (jobs s) = [2] /\ bak s = Some [(1, 1)] /\ orphans s = [] /\
+  step_exconly s (Lock 2%nat) = step s (Lock 2%nat).
+Proof. eexists. split; [vm_compute; reflexivity|]. vm_compute. repeat split. Qed.
+
+Example ex_raise_keeps : exists s s', run init (firstn 16 tr_sysexit) = Some s /\
+  step s (EndExc 1%nat ExcExit) = Some s' /\ step s (EndExc 1%nat ExcError) = Some s' /\ bak s' = Some [(1, 1)].
+Proof. eexists. eexists. split; [vm_compute; reflexivity|]. repeat split. Qed.
 
 (* ------------------------------------------------------------------ the lock file behind `lock` *)
 Lemma updh_eq {A} (f : nat -> option A) k v : updh f k v k = v.
